@@ -5,7 +5,7 @@ translation unit and of every header under /repo/src (so any edit invalidates)."
 import json, os, subprocess, hashlib, glob, threading
 from ..core import REPO, VERIF, Undecided
 
-CACHE = os.path.join(VERIF, ".cache")
+CACHE = os.environ.get("VERIF_CACHE") or os.path.join(VERIF, ".cache")
 _lock = threading.Lock()
 _tree_sha = {}
 
